@@ -711,6 +711,10 @@ func dryShootHTTP(s *httpscen.Scenario) {
 		body := bytes.NewReader([]byte(cannedBody))
 		post := map[string]any{}
 		for _, pp := range step.Postprocessors {
+			if pp == nil {
+				// ScenarioGun.shootStep calls postprocessor.Process on every element: a nil element is a nil-interface call there
+				panic(&violation{id: fNullItem, msg: fmt.Sprintf("request %q of scenario %q holds a nil postprocessor (an empty list item in the description): the gun panics on it at shoot time", step.Name, s.Name)})
+			}
 			vars, err := pp.Process(resp, body)
 			if err != nil {
 				return
@@ -743,6 +747,9 @@ func dryShootGRPC(s *grpcscen.Scenario) {
 		requestVars[step.Name] = stepVars
 		pre := map[string]any{}
 		for _, pp := range step.Preprocessors {
+			if pp == nil {
+				panic(&violation{id: fNullItem, msg: fmt.Sprintf("call %q of scenario %q holds a nil preprocessor (an empty list item in the description): the gun panics on it at shoot time", step.Name, s.Name)})
+			}
 			vars, err := pp.Process(&step, templateVars)
 			if err != nil {
 				return
@@ -760,6 +767,9 @@ func dryShootGRPC(s *grpcscen.Scenario) {
 			return
 		}
 		for _, pp := range step.Postprocessors {
+			if pp == nil {
+				panic(&violation{id: fNullItem, msg: fmt.Sprintf("call %q of scenario %q holds a nil postprocessor (an empty list item in the description): the gun panics on it at shoot time", step.Name, s.Name)})
+			}
 			if _, err := pp.Process(nil, 0); err != nil {
 				return
 			}
